@@ -4,6 +4,7 @@ From Coq Require Import List Bool String Arith Lia.
 From Spox Require Import ValueProp ValuePropFacts ValuePropProg.
 Import ListNotations.
 Open Scope string_scope.
+Open Scope list_scope.
 
 (* ------------------------------------------------------------------------------------------------ the order *)
 Lemma dim_ge_refl d : dim_ge d d = true.
@@ -176,6 +177,12 @@ Section ProgFacts.
     Lemma Forall2_app' {A B} (R : A -> B -> Prop) l1 l2 m1 m2 : Forall2 R l1 m1 -> Forall2 R l2 m2 -> Forall2 R (l1 ++ l2) (m1 ++ m2).
     Proof. intros H1 H2. induction H1; cbn; [exact H2|constructor; assumption]. Qed.
 
+    Lemma run_nofault_cons c b i (st : step) rest env :
+      run opk infer bk c b (@no_fault) i (st :: rest) env =
+      (let '(e, ok) := run opk infer bk c b (@no_fault) (S i) rest
+                           (env ++ step_outs opk infer c b st env (bk i (ins_of opk st env))) in (e, ok)).
+    Proof. cbn [run]. unfold no_fault at 1 2. cbn match. destruct (run _ _ _ _ _ _ _ _ _) as [e ok]. reflexivity. Qed.
+
     (* C15: a fault that is detected at its own node (nothing attached there) only ever makes types downstream more
        permissive and values disappear; nothing new and nothing different is attached anywhere. *)
     Theorem downstream_more_permissive c b fault : forall prog i env env',
@@ -183,9 +190,9 @@ Section ProgFacts.
       snd (run opk infer bk c b fault i prog env') = true ->
       Forall2 vle (fst (run opk infer bk c b (@no_fault) i prog env)) (fst (run opk infer bk c b fault i prog env')).
     Proof.
-      induction prog as [|st rest IH]; intros i env env' Hwf Henv Hok; cbn [run] in *; [exact Henv|].
+      induction prog as [|st rest IH]; intros i env env' Hwf Henv Hok; [exact Henv|].
+      rewrite run_nofault_cons. cbn [run] in *.
       inversion Hwf as [|? ? Hst Hrest]; subst.
-      unfold no_fault at 1. cbn match.
       set (r := bk i (ins_of opk st env)).
       set (r' := match fault i with Some r0 => r0 | None => bk i (ins_of opk st env') end) in *.
       set (outs' := step_outs opk infer c b st env' r') in *.
@@ -196,7 +203,7 @@ Section ProgFacts.
       { apply step_vle_gen; [exact Hst|exact Henv|]. intros Hc Heq. unfold r'. destruct (fault i) as [rf|] eqn:Hf.
         - right. intros s Hs. rewrite forallb_forall in Hdrop.
           assert (step_outs opk infer c b st env rf = outs') as Hsame.
-          { unfold outs', r'. rewrite Hf. unfold step_outs. rewrite Hc.
+          { unfold outs', r'. try rewrite Hf. unfold step_outs. rewrite Hc.
             assert (mk_node opk infer st env' = mk_node opk infer st env) as ->; [|reflexivity].
             unfold mk_node. rewrite Heq. f_equal. apply map_ext_in. intros a Ha.
             unfold ins_of in Heq. rewrite (map_eq_pointwise _ _ _ Heq a Ha). reflexivity. }
@@ -213,8 +220,9 @@ Section ProgFacts.
       Forall2 vle (fst (run opk infer bk c b (@no_fault) i prog env)) (fst (run opk infer bk c BNone (@no_fault) i prog env')).
     Proof.
       intros prog i env env' Hnf. revert i env env'.
-      induction prog as [|st rest IH]; intros i env env' Hwf Henv; cbn [run] in *; [exact Henv|].
-      inversion Hwf as [|? ? Hst Hrest]; subst. unfold no_fault at 1 3. cbn match.
+      induction prog as [|st rest IH]; intros i env env' Hwf Henv; [exact Henv|].
+      rewrite !run_nofault_cons.
+      inversion Hwf as [|? ? Hst Hrest]; subst.
       set (r := bk i (ins_of opk st env)). set (r' := bk i (ins_of opk st env')).
       assert (Forall2 vle (step_outs opk infer c b st env r) (step_outs opk infer c BNone st env' r')) as Hstep.
       { apply step_vle_gen; [exact Hst|exact Henv|]. intros Hc Heq.
@@ -233,3 +241,61 @@ Section ProgFacts.
     Qed.
   End Mono.
 End ProgFacts.
+
+(* ------------------------------------------------------------------------------------------------ non-vacuity *)
+(* A toy instance: operator 0 = a constant (type given by its own attribute), 1 = Mul of shape vectors, 2 = Reshape whose
+   output shape is known only when the shape operand carries a value. *)
+Module Toy.
+  Definition t_sh := Tensor EI64 (Some [DConst 2]).
+  Definition t_data := Tensor EF32 (Some [DConst 6]).
+  Definition infer (o : nat) (ins : list vstate) : list (option ty) :=
+    match o with
+    | 0 => [Some t_data]
+    | 1 => [Some t_sh]
+    | 2 => [Some t_sh]
+    | _ => match ins with
+           | [_; (_, Some _)] => [Some (Tensor EF32 (Some [DConst 3; DConst 2]))]
+           | _ => [Some (Tensor EF32 (Some [DUnk; DUnk]))]
+           end
+    end.
+  Definition bk (i : nat) (ins : list vstate) : backend_result :=
+    match i with
+    | 2 => BDict [("C", PArr EI64 [2])]
+    | _ => BDict [("reshaped", PArr EF32 [3; 2])]
+    end.
+  Definition prog : list (step nat) :=
+    [ mkStep nat 0 (KSource (Some (VArr EF32 [6]))) false None [] false [("output", "output")];
+      mkStep nat 1 (KSource (Some (VArr EI64 [2]))) false None [] false [("output", "output")];
+      mkStep nat 2 KStandard false None [("A", 1); ("B", 1)] false [("C", "C")];
+      mkStep nat 3 KStandard false None [("data", 0); ("shape", 2)] false [("reshaped", "reshaped")] ].
+  Definition fault (i : nat) : option backend_result :=
+    match i with 2 => Some (BDict [("C", PList [PArr EI64 [2]; PArr EI64 [2]])]) | _ => None end.
+
+  Lemma infer_mono o ins ins' : Forall2 vle ins ins' -> Forall2 (fun t t' => oty_ge t t' = true) (infer o ins) (infer o ins').
+  Proof.
+    intros H. destruct o as [|[|[|o]]]; cbn; try (constructor; [reflexivity|constructor]).
+    destruct H as [|s1 s1' l l' H1 H]; [constructor; [reflexivity|constructor]|].
+    destruct H as [|s2 s2' l l' H2 H]; [constructor; [reflexivity|constructor]|].
+    destruct H as [|s3 s3' l l' H3 H].
+    - destruct H2 as [->|[Hn _]].
+      + destruct s2 as [t [v|]]; constructor; try reflexivity; constructor.
+      + destruct s2' as [t' v']. cbn in Hn. subst v'. destruct s2 as [t [v|]]; constructor; try reflexivity; constructor.
+    - destruct s2 as [t [v|]], s2' as [t' [v'|]]; constructor; try reflexivity; constructor.
+  Qed.
+
+  Example fault_free_run :
+    fst (run nat infer bk cfg_fixed BRef (@no_fault) 0 prog []) =
+    [(Some t_data, Some (VArr EF32 [6])); (Some t_sh, Some (VArr EI64 [2])); (Some t_sh, Some (VArr EI64 [2]));
+     (Some (Tensor EF32 (Some [DConst 3; DConst 2])), Some (VArr EF32 [3; 2]))].
+  Proof. vm_compute. reflexivity. Qed.
+  Example faulty_run :
+    run nat infer bk cfg_fixed BRef fault 0 prog [] =
+    ([(Some t_data, Some (VArr EF32 [6])); (Some t_sh, Some (VArr EI64 [2])); (Some t_sh, None);
+      (Some (Tensor EF32 (Some [DUnk; DUnk])), None)], true).
+  Proof. vm_compute. reflexivity. Qed.
+  Example wf : Forall (wf_step nat) prog.
+  Proof. repeat constructor; cbn; try reflexivity; try discriminate; intros; try discriminate; congruence. Qed.
+  Example downstream_instance :
+    Forall2 vle (fst (run nat infer bk cfg_fixed BRef (@no_fault) 0 prog [])) (fst (run nat infer bk cfg_fixed BRef fault 0 prog [])).
+  Proof. apply (downstream_more_permissive nat infer bk infer_mono); [exact wf|constructor|vm_compute; reflexivity]. Qed.
+End Toy.
